@@ -20,6 +20,7 @@ import (
 	cstypes "github.com/gnolang/gno/tm2/pkg/bft/consensus/types"
 	sm "github.com/gnolang/gno/tm2/pkg/bft/state"
 	"github.com/gnolang/gno/tm2/pkg/bft/types"
+	walm "github.com/gnolang/gno/tm2/pkg/bft/wal"
 	"github.com/gnolang/gno/tm2/pkg/events"
 
 	"verif/sim/kernel"
@@ -1092,6 +1093,10 @@ func (o *oracle) afterRestart(n *node) {
 			if rs.Height == s.initialH {
 				// the WAL of a fresh chain starts with MetaMessage{0}; catchupReplay(h) wants MetaMessage{h}
 				oracle = "own_votes_not_replayed_first_height"
+			} else if _, found, _ := n.wal.SearchForHeight(rs.Height, &walm.WALSearchOptions{IgnoreDataCorruptionErrors: true}); !found {
+				// block h-1 was saved, the node died before the end-height marker, the handshake applied the block:
+				// the WAL never gets a marker for it and height h runs without a replayable WAL
+				oracle = "own_votes_not_replayed_no_end_height_marker"
 			}
 			s.fail("C33", oracle, "n%d restarted into height %d without its own %s (signed, WAL-synced and added before the crash): catch-up replay did not restore it (has %v)", n.id, rs.Height, voteDesc(v), got)
 			if s.stop {
